@@ -140,7 +140,8 @@ func VerifC09Bytes() {
 		}
 	}
 	w := vNewWire()
-	conn := &Conn{cfg: &Config{Flood: true}, out: make(chan string, 4)}
+	conn := vBareConn(&Config{Flood: true}, false)
+	conn.out = make(chan string, 4)
 	conn.sock = w
 	conn.postConnect(nil, false)
 	conn.Raw(line)
